@@ -584,7 +584,36 @@ func c02Compile(r *lp.Run, rng *lp.Rand) {
 		add(&c02Job{label: "random-schemas", what: fmt.Sprintf("random schema document %d", i), spec: []byte(b.doc())})
 	}
 
-	// --- response matrices
+	// --- response matrices: every non-empty set of {4XX, 5XX, default} sharing one schema, alone and next to a
+	// 200 (with the same or another schema), convenient errors auto and off; then random ones
+	for mask := 1; mask < 8; mask++ {
+		for _, with200 := range []string{"", "A", "C"} {
+			resps := map[string]any{}
+			js := func(n string) map[string]any {
+				return map[string]any{"description": "r", "content": map[string]any{"application/json": map[string]any{"schema": map[string]any{"$ref": "#/components/schemas/" + n}}}}
+			}
+			var names []string
+			for b, code := range []string{"4XX", "5XX", "default"} {
+				if mask&(1<<b) != 0 {
+					resps[code] = js("C")
+					names = append(names, code+":C")
+				}
+			}
+			if with200 != "" {
+				resps["200"] = js(with200)
+				names = append(names, "200:"+with200)
+			}
+			obj := func(p string) map[string]any {
+				return map[string]any{"type": "object", "properties": map[string]any{p: map[string]any{"type": "string"}}}
+			}
+			doc, _ := json.Marshal(map[string]any{"openapi": "3.0.3", "info": map[string]any{"title": "t", "version": "1"},
+				"paths":      map[string]any{"/op": map[string]any{"get": map[string]any{"operationId": "op", "responses": resps}}},
+				"components": map[string]any{"schemas": map[string]any{"A": obj("a"), "C": obj("c")}}})
+			for _, ce := range []int{0, -1} {
+				add(&c02Job{label: "response-matrix", what: strings.Join(names, ","), spec: doc, convErr: ce})
+			}
+		}
+	}
 	for i := 0; i < r.N(40, 500); i++ {
 		doc, what := responseDoc(rng)
 		ce := lp.Pick(rng, []int{0, -1})
@@ -766,6 +795,16 @@ func c02KnownClass(j *c02Job, msg string) string {
 			return "K12"
 		}
 	}
+	// K12 outside the collision stream (corpus documents and their mutants bring their own names): the compiler
+	// cites an identifier of the K12 table and the document spells a name that maps to it
+	if j.collide == "" && j.outcome == "ok" {
+		for _, m := range reCited.FindAllStringSubmatch(msg, -1) {
+			x := m[1] + m[2] + m[3] + m[4] + m[5]
+			if c02K12Idents()[x] && strings.Contains(strings.ToLower(string(j.spec)), `"`+strings.ToLower(x)+`"`) {
+				return "K12"
+			}
+		}
+	}
 	// K13: the failure is caused by a control character inside a name — the same document with those
 	// characters replaced generates parsable code
 	if j.twin != nil && j.outcome == "unparsable" {
@@ -780,6 +819,19 @@ func c02KnownClass(j *c02Job, msg string) string {
 }
 
 var c02K12 = map[string]bool{}
+
+var reCited = regexp.MustCompile(`(?:(\w+) redeclared|invalid recursive type:? (\w+)|(\w+) is not a type|other declaration of (\w+)|field and method with the same name (\w+))`)
+
+// c02K12Idents: the identifiers named in the K12 table (the part after position=)
+func c02K12Idents() map[string]bool {
+	out := map[string]bool{}
+	for k := range c02K12 {
+		if i := strings.Index(k, "="); i >= 0 {
+			out[k[i+1:]] = true
+		}
+	}
+	return out
+}
 
 // hostilePairs maps the choices of a random hostile document (pos="name" …) to the position names of the
 // collision stream, with the name in the form the generator derives from it
@@ -803,7 +855,7 @@ func hostilePairs(what string) []string {
 		if p, err := gen.VerifPascal(name); err == nil {
 			forms = append(forms, p)
 		} else if pos == "server-name" {
-			forms = append(forms, "")
+			forms = append(forms, "<nothing nameable>")
 		}
 		for _, cp := range posMap[pos] {
 			for _, f := range forms {
